@@ -54,8 +54,11 @@ struct Mutation {
 }
 
 fn mutation() -> impl Strategy<Value = Mutation> {
-    (0u8..6, any::<u16>(), any::<u16>(), any::<u8>()).prop_map(|(kind, pos, tok, byte)| Mutation { kind, pos, tok, byte })
+    (0u8..8, any::<u16>(), any::<u16>(), any::<u8>()).prop_map(|(kind, pos, tok, byte)| Mutation { kind, pos, tok, byte })
 }
+
+/// Filler material for long lines: ASCII identifier characters and multi-byte UTF-8 characters.
+const FILL: [&str; 8] = ["a", "_", "9", "zz", "\u{e9}", "\u{2192}", "\u{1f600}", "x\u{e9}"];
 
 const ICCMA_TOKS: [&[u8]; 30] = [
     b"p", b"af", b" ", b"\n", b"\r\n", b"1", b"2", b"3", b"0", b"-1", b"+2", b"#", b"# c\n", b"\t", b"\xff", b"\xc3\xa9",
@@ -94,6 +97,22 @@ fn apply_mutations(mut b: Vec<u8>, muts: &[Mutation], toks: &[&[u8]]) -> Vec<u8>
                     let start = b[..p].iter().rposition(|c| *c == b'\n').map(|x| x + 1).unwrap_or(0);
                     let end = b[p..].iter().position(|c| *c == b'\n').map(|x| p + x + 1).unwrap_or(b.len());
                     b.drain(start..end);
+                }
+            }
+            6 | 7 => {
+                // lengthen a line: a run of 1..=120 filler units (ASCII or multi-byte) at one place
+                let unit = FILL[(m.byte as usize) % FILL.len()].as_bytes();
+                let reps = 1 + (m.tok as usize) % 120;
+                let mut ins = Vec::with_capacity(unit.len() * reps);
+                for k in 0..reps {
+                    ins.extend_from_slice(unit);
+                    // kind 7: shift the alignment of multi-byte characters by an ASCII byte now and then
+                    if m.kind == 7 && k % 7 == (m.byte as usize) % 7 {
+                        ins.push(b'b');
+                    }
+                }
+                for (i, x) in ins.iter().enumerate() {
+                    b.insert(pos + i, *x);
                 }
             }
             _ => {
@@ -387,7 +406,7 @@ impl Prop for Readers {
         "C13"
     }
     fn rule(&self) -> String {
-        "Byte strings for both readers from four generators: (i) grammar-based well-formed files with the decorations the formats define (ICCMA'23: # comment lines, trailing blank lines, CRLF, missing final newline, surrounding/multiple blanks and tabs, duplicate attack lines; Aspartix: blank lines, blanks around identifiers, duplicate declarations, CRLF, identifiers over [_A-Za-z][_A-Za-z0-9]* incl. 'arg', 'att', '_'); (ii) targeted token-level corruptions of the listed ill-formedness classes (header word/arity/number, missing header, index 0 / n+1 / negative / non-numeric, 1 or 3 tokens, content after a blank line, undeclared argument, argument after attack, missing terminator, wrong arity); (iii) byte-level mutations (insert token, delete, replace, truncate, drop line, duplicate line) and token soup; (iv) raw random bytes incl. invalid UTF-8 and NUL. Oracle: no panic; tri-state reference parsers (Accept => Ok with exactly the declared labels in order and the declared attack set; Reject => Err; Unspecified => Err or the natural reading); read_arg_from_str on every label and out-of-range values. Declared sizes above 10^5 are excluded and counted. Non-trivial: a well-formed file with >=1 decoration and >=1 attack, or an input the reference rejects; distinct = (format, bytes).".into()
+        "Byte strings for both readers from four generators: (i) grammar-based well-formed files with the decorations the formats define (ICCMA'23: # comment lines, trailing blank lines, CRLF, missing final newline, surrounding/multiple blanks and tabs, duplicate attack lines; Aspartix: blank lines, blanks around identifiers, duplicate declarations, CRLF, identifiers over [_A-Za-z][_A-Za-z0-9]* incl. 'arg', 'att', '_'); (ii) targeted token-level corruptions of the listed ill-formedness classes (header word/arity/number, missing header, index 0 / n+1 / negative / non-numeric, 1 or 3 tokens, content after a blank line, undeclared argument, argument after attack, missing terminator, wrong arity); (iii) byte-level mutations (insert token, delete, replace, truncate, drop line, duplicate line, lengthen a line by up to 120 ASCII or multi-byte UTF-8 filler units) and token soup; (iv) raw random bytes incl. invalid UTF-8 and NUL. Oracle: no panic; tri-state reference parsers (Accept => Ok with exactly the declared labels in order and the declared attack set; Reject => Err; Unspecified => Err or the natural reading); read_arg_from_str on every label and out-of-range values. Declared sizes above 10^5 are excluded and counted. Non-trivial: a well-formed file with >=1 decoration and >=1 attack, or an input the reference rejects; distinct = (format, bytes).".into()
     }
     fn assumptions(&self) -> Vec<String> {
         vec![
